@@ -1,7 +1,10 @@
 """C17 -- block, column, layer and node names are unique, well-formed and invertible.
 
-tie: T (every naming function translated from the AST of mulgrids.py on every run);
-the generated functions are also run (extracted) against the real ones."""
+tie: T (every naming function translated from the AST of mulgrids.py on every run, including the
+while loop of new_dict_key and the for/while loops of the name-deciding slice of add_layers, see
+props/c17_translate.py; theorems in coq/C17/Props.v and Props2.v are about the generated code);
+the generated functions are also run (extracted, with exactly the fuel the theorems give) against
+the real ones, and the property statement is evaluated on the implementation (oracle)."""
 import os, itertools, string, ast, warnings
 import vf
 from translate import pyfun
@@ -307,10 +310,12 @@ def run(ctx):
     ctx.rule = ('correspondence: every five-character name over the alphabet "aZ 019" (7776) plus random names of length 0..7, generator integers at every capacity boundary '
                 '(99/100, 702/703, 999/1000, 18278/18279 ...) plus random up to 20000, x 4 conventions x left/right justification x 8 alphabets x spaces; '
                 'oracle: fix/unfix laws on names over letters, digits and blanks, all generator integers 1..3000 (thorough 20000) per configuration, rectangular geometries x conventions x atmosphere types x justification x alphabets; '
+                'new_dict_key on dictionaries holding the first m generated names minus random holes (fuel |d|+2); the translated add_layers name slice (fuel 3) against the real layer list for '
+                '0..130 layers (+ 702/703, 1208..1210 where the surface name "atm"/"at" would be generated) x conventions x justify x 6 alphabets x spaces; the per-convention tables; '
                 'distinct by the full argument tuple')
-    ctx.trusted += ['Coq 8.16.1 kernel (coqc); no native_compute', 'translator tools/translate/pyfun.py (Python AST -> Gallina over PTBase.PyVal), fail-closed, validated by the extracted-code correspondence on every run',
+    ctx.trusted += ['Coq 8.16.1 kernel (coqc); no native_compute', 'translator tools/translate/pyfun.py (Python AST -> Gallina over PTBase.PyVal) and its loop extension tools/props/c17_translate.py (while -> fuel fixpoint, for -> structural fixpoint, add_layers cut down to its name-deciding statements), fail-closed, validated by the extracted-code correspondence on every run',
                     'PTBase.PyVal / PyStr: hand-written semantics of the Python string operations used', 'extraction: ExtrOcamlBasic + ExtrOcamlString, OCaml 4.13.1, ocaml/main.ml']
-    ctx.assumptions += ['names are ASCII; alphabets are non-empty', "spaces=False with a one-character alphabet is excluded (Python's own recursion does not terminate there)"]
+    ctx.assumptions += ['names are ASCII; alphabets are non-empty', 'theorems about the numbering functions: numbers >= 0, alphabets duplicate-free, blank-free when spaces=True, >= 2 characters when spaces=False; end-to-end block-name theorem: digit-free alphabets; block_name with the empty block mapping', "spaces=False with a one-character alphabet is excluded (Python's own recursion does not terminate there)"]
     ctx.stage()
     ok = translate(ctx)
     exe = None
